@@ -12,6 +12,7 @@ import (
 	"sync/atomic"
 	"time"
 
+	"k8s.io/apimachinery/pkg/watch"
 	"verif/harness/evid"
 )
 
@@ -101,6 +102,9 @@ func newSurface(n int) surface {
 func childMain(dir string) int {
 	// a runaway recursion should die quickly and cheaply, not after eating 1 GB
 	debug.SetMaxStack(128 << 20)
+	// the object trackers of the fake clientsets panic ("channel full") when a watcher lags more than this many events
+	// behind; the API server has no such limit, so a burst of writes must not look like a crash
+	watch.DefaultChanSize = 1 << 14
 	os.Setenv("MY_NODE_NAME", "fznode")
 	data, err := os.ReadFile(filepath.Join(dir, "task.json"))
 	if err != nil {
@@ -129,6 +133,7 @@ func childMain(dir string) int {
 		return exitSetup
 	}
 	sname := fmt.Sprintf("surface%d", c.t.Surface)
+	trace := os.Getenv("FUZZMON_TRACE") != ""
 	for idx := c.t.Start; idx < c.t.End; idx++ {
 		in := c.s.gen(idx)
 		in.Idx = idx
@@ -137,6 +142,10 @@ func childMain(dir string) int {
 		out, detail, pv := c.guardedCall(in)
 		c.disarm()
 
+		if trace {
+			fmt.Fprintf(os.Stderr, "FUZZMON-TRACE %s idx=%d class=%s op=%s out=%s panic=%v detail=%s\n", sname, idx, in.Class, in.Op, out, pv != nil,
+				truncate(detail, 300))
+		}
 		c.run.Eval(1)
 		c.run.Count("inputs_"+sname, 1)
 		c.run.Count("class_"+sname+"_"+in.Class, 1)
@@ -177,6 +186,9 @@ func childMain(dir string) int {
 		}
 	}
 	c.s.close()
+	if n := atomic.LoadInt64(&barrierTimeouts); n > 0 {
+		c.run.Count("harness_barrier_timeouts", n)
+	}
 	c.flushViolations()
 	if err := c.run.WritePartial(filepath.Join(dir, "partial.json")); err != nil {
 		fmt.Fprintln(os.Stderr, "child: cannot write partial:", err)
@@ -266,6 +278,7 @@ func (c *child) recordPanic(in *Input, pv *panicInfo, phase string) {
 	if phase == "probe" {
 		sig = fmt.Sprintf("panic-%s-probe-%s", sname, shortFunc(pv.topGalaxy))
 	}
+	sig = sigSafe(sig)
 	c.run.Count("sigcount:"+sig, 1)
 	v := evid.Violation{Sig: sig, Case: fmt.Sprintf("%d:%s:%d", c.t.Seed, sname, in.Idx),
 		Msg: fmt.Sprintf("%s of %s input %d (class %s) panicked in %s: %s", in.Op, sname, in.Idx, in.Class, pv.topGalaxy, pv.value),
